@@ -60,8 +60,11 @@ namespace vd
 
     // ---- projections -------------------------------------------------------------------------
     // SQF value -> tagged JSON record (DESIGN.md 3):
-    //   {"t":"nil"} {"t":"n","v":3} {"t":"f","s":"1.5"} {"t":"b","v":true} {"t":"s","v":"x"}
-    //   {"t":"a","v":[...]} {"t":"c","v":"{...}"} {"t":"o","k":"TYPENAME","v":"<str>"}
+    //   {"t":"nil"} {"t":"n","n":3} {"t":"f","f":"1.5"} {"t":"b","b":true} {"t":"s","s":"x"}
+    //   {"t":"a","a":[...]} {"t":"c","c":"{...}"} {"t":"o","k":"TYPENAME","o":"<str>"} {"t":"h","h":[[k,v],..]}
+    // The payload field is named after the tag: TLC orders record fields by an internal id and
+    // cannot compare an integer with a string, so two differently typed values must never share a
+    // field name.
     J proj(const sqf::runtime::value& v, int depth = 0);
     // instruction listing of a compiled set (nested code as nested listing)
     J listing(const sqf::runtime::instruction_set& set);
